@@ -203,9 +203,11 @@ class C19(Check):
             elif r.code != 0:
                 err = "exit %r: %s" % (r.code, r.out[-200:])
             else:
-                lines = [ln for ln in r.out.split("\n") if ln.startswith("Computed hash: ")]
-                got = lines[-1][len("Computed hash: "):] if lines else r.out
+                # whatever the wording: the 64-digit hexadecimal value the tool reports
+                import re
+                toks = re.findall(r"(?<![0-9a-fA-F])[0-9a-fA-F]{64}(?![0-9a-fA-F])", r.out)
                 want_cmp = want.hex()
+                got = want_cmp if want_cmp in [t.lower() for t in toks] else (toks[-1].lower() if toks else r.out)
         else:
             try:
                 got = self.LU.compute_app_hash(path)
@@ -311,7 +313,7 @@ class C19(Check):
             td.write("auth.json", "{ this is not an authorization\n")
         elif a.pre == "empty":
             td.write("auth.json", "")
-        patches = [(os, "urandom", opstub.ByteStream("c19-embed"))]
+        patches = opstub.seam_urandom(opstub.ByteStream("c19-embed"))
         for step in a.seq or []:
             stats.evaluations += 1
             if step == "message-old":
@@ -424,7 +426,7 @@ class C19(Check):
             inputs = {n: td.read(n, binary=True) for n in td.listing() if n in names}
             r = opstub.run_main(self.signonetime.main,
                                 ["signonetime.py", "-a", app_arg, "-p", pkpath + (" " if a.pad else "")],
-                                patches=[(os, "urandom", stream)])
+                                patches=opstub.seam_urandom(stream))
             files = {n: td.read(n, binary=True) for n in td.listing()}
             written = {n: c for n, c in files.items() if inputs.get(n) != c}
             stats.observe(("onetime", len(a.images), a.sep, bool(a.missing), run, r.code, len(written)))
@@ -452,12 +454,12 @@ class C19(Check):
                 return
             if not expect_ok:
                 stats.dont_care += 1          # the statement is silent about unreadable images
-            scalar = None
+            scalar, entropy = None, None
             if pub is not None and ecsig.on_curve(pub):
                 for out in stream.calls:
                     for cand in self.scalar_candidates(out):
                         if ecsig.pub_of_libsecp(cand) == pub:
-                            scalar = cand
+                            scalar, entropy = cand, out
                             break
                     if scalar:
                         break
@@ -504,14 +506,13 @@ class C19(Check):
                             ("scalar-HEX", scalar.hex().upper().encode()),
                             ("scalar-hex-stripped", ("%x" % d).encode()), ("scalar-decimal", str(d).encode())]
             elif expect_ok:
-                # the key was not derived from the owned randomness in a known way: report, since
-                # then "afresh" and "written nowhere" cannot be established
-                if not any(v.key.startswith("C19:fresh-key") for v in vs):
-                    self.viol(vs, "fresh-key", "onetime:key-not-from-run-randomness", "onetime", args,
-                              {"urandom_calls": len(stream.calls), "public_key": pub.hex()},
-                              {"key": "generated from this run's randomness"})
-            for out in stream.calls[:1]:
-                secrets += [("entropy-raw", out[:32]), ("entropy-hex", out[:32].hex().encode())]
+                # the key does not come out of the owned randomness in a way known here (another
+                # constructor, another library's generator): freshness is then judged on the two
+                # runs' public keys only, the leak by the generic scan below
+                stats.dont_care += 1
+                stats.bump("key_not_recovered_from_owned_randomness")
+            if entropy is not None:
+                secrets += [("entropy-raw", entropy[:32]), ("entropy-hex", entropy[:32].hex().encode())]
             hay = dict(written)
             hay["<stdout>"] = r.out.encode("utf-8", "replace")
             hay["<stderr>"] = r.err.encode("utf-8", "replace")
@@ -520,10 +521,39 @@ class C19(Check):
                     if sec and sec in content:
                         self.viol(vs, "key-leak", "onetime:%s" % sname, "onetime", args,
                                   {"where": fname, "secret": sname}, {"private_key": "written nowhere"})
+            # generic scan, independent of the randomness seam: nothing written or printed
+            # contains a value (raw 32 bytes, 64 hex digits, decimal) that IS the private key
+            if pub is not None and ecsig.on_curve(pub):
+                for fname, content in hay.items():
+                    form = self.find_private_key(content, pub)
+                    if form:
+                        self.viol(vs, "key-leak", "onetime:%s" % form, "onetime", args,
+                                  {"where": fname, "secret": form}, {"private_key": "written nowhere"})
         if len(pubs) == 2 and pubs[0] is not None and pubs[0] == pubs[1] and \
                 a.streams[0] != a.streams[1]:
             self.viol(vs, "fresh-key", "onetime:same-key-in-two-runs", "onetime", args,
                       {"run1": pubs[0].hex(), "run2": pubs[1].hex()}, {"keys": "differ"})
+
+    @staticmethod
+    def find_private_key(content, pub):
+        import re
+        N = ecsig.N
+
+        def hit(d):
+            return 0 < d < N and ecsig.pub_of_libsecp(d.to_bytes(32, "big")) == pub
+        for m in re.finditer(rb"[0-9a-fA-F]{64,}", content):
+            run = m.group(0)
+            for i in range(len(run) - 63):
+                if hit(int(run[i:i + 64], 16)):
+                    return "scalar-hex"
+        for m in re.finditer(rb"(?<![0-9])[0-9]{60,78}(?![0-9])", content):
+            if hit(int(m.group(0))):
+                return "scalar-decimal"
+        if len(content) <= 4096 and not content.isascii():
+            for i in range(len(content) - 31):
+                if hit(int.from_bytes(content[i:i + 32], "big")):
+                    return "scalar-raw"
+        return None
 
     @staticmethod
     def scalar_candidates(out):
